@@ -89,6 +89,39 @@ if __name__ == '__main__':
                     if not math.isfinite(float(exact(('leaf', nm, ps))[0](1.3))): continue
                 except Exception: continue            # the documented formula itself is undefined for this zero (a length scale): not a parameter set of the form's domain
                 c = dict(form=nm, params=ps, rs=[0.9, 1.3, 2.7]); rep.case(nm + '/zero-parameter', c); check_case(rep, c, '%s-zero-%d' % (nm, i_))
+        # one file that uses a form twice with parameter vectors that agree to six significant figures; and more than 32 parametrisations of one
+        # form in one process followed by the first ones again (both routes that keep a factory): every use evaluates ITS OWN parameters
+        import math
+        from atsim.potentials.config import Configuration
+        for nm, p1, p2 in (('buck', [1388.771, 0.3623, 175.0], [1388.774, 0.3623, 175.0]), ('polynomial', [0, 1000000, -3], [0, 1000001, -3]), ('bornmayer', [1200.0, 0.3000001], [1200.0, 0.3000004]),
+                           ('lj', [0.2500001, 2.5], [0.2500003, 2.5])):
+            ini = '[Tabulation]\ntarget : LAMMPS\nnr : 11\ncutoff : 10.0\n\n[Pair]\nA-A : >=0 %s\nA-B : >=0 %s\n' % (to_config(('leaf', nm, p1)), to_config(('leaf', nm, p2)))
+            c = dict(form=nm, params=p2, near=p1, rs=[0.9, 1.7]); rep.case(nm + '/near-equal-parameters', c)
+            try:
+                tab = Configuration().read(io.StringIO(ini)); f2 = [p_ for p_ in tab.potentials if p_.speciesB == 'B'][0].potentialFunction; w2 = exact(('leaf', nm, p2))[0]
+                bad = [(x, f2(x), float(w2(x))) for x in c['rs'] if abs(f2(x) - float(w2(x))) > 1e-10 * max(1.0, abs(float(w2(x))))]
+                if bad: rep.dev('%s-near-equal' % nm, dict(c, route='as.NAME', ini=ini), 'second entry at %r = %r' % bad[0][:2], bad[0][2])
+                else: rep.ok(2)
+            except Exception as e: rep.dev('%s-near-equal' % nm, dict(c, ini=ini), 'exception %r' % (e,), 'two potentials')
+        for nm in ('buck', 'morse'):
+            plist = [[rnd(p) for p in LEAVES[nm][0](rng)] for _ in range(40)]
+            c = dict(form=nm, params=plist[0], many=40, rs=[1.1, 2.3]); rep.case(nm + '/many-parametrisations', c)
+            try:
+                fac = getattr(pf, nm); fs = [fac(*p) for p in plist]; again = [fac(*p) for p in plist[:6]]
+                lines = ['P%d-Q%d : >=0 %s' % (i, i, to_config(('leaf', nm, p))) for i, p in enumerate(plist + plist[:6])]
+                tab = Configuration().read(io.StringIO('[Tabulation]\ntarget : LAMMPS\nnr : 11\ncutoff : 10.0\n\n[Pair]\n' + '\n'.join(lines) + '\n'))
+                cfg = {p_.speciesA: p_.potentialFunction for p_ in tab.potentials}
+                bad = None
+                for i, p in enumerate(plist[:6]):
+                    w = exact(('leaf', nm, p))[0]
+                    for x in c['rs']:
+                        for route, g in (('factory', again[i]), ('as.NAME', cfg['P%d' % (40 + i)])):
+                            if abs(g(x) - float(w(x))) > 1e-9 * max(1.0, abs(float(w(x)))): bad = (route, i, x, g(x), float(w(x)))
+                        for route, g in (('factory.deriv', getattr(again[i], 'deriv', None)),):
+                            if g is not None and abs(g(x) - float(exact(('leaf', nm, p))[1](x))) > 1e-7 * max(1.0, abs(float(exact(('leaf', nm, p))[1](x)))): bad = (route, i, x, g(x), float(exact(('leaf', nm, p))[1](x)))
+                if bad: rep.dev('%s-many' % nm, dict(c, route=bad[0], params=plist[bad[1]], rs=[bad[2]]), '%s of parameter set %d requested again after 40 others, at %r: %r' % (bad[0], bad[1], bad[2], bad[3]), bad[4])
+                else: rep.ok(24)
+            except Exception as e: rep.dev('%s-many' % nm, c, 'exception %r' % (e,), 'potentials')
         # same unordered charge product, different pairs (history dependence through caches keyed on derived quantities)
         for nm, plist in (('zbl', [[6, 6], [2, 18], [4, 9], [3, 12]]), ('coul', [[2, 2], [1, 4], [4, 1]]), ('lj', [[0.1, 2.0], [0.2, 1.0]])):
             for params in plist:
